@@ -4,6 +4,16 @@ from . import core, simple
 from .core import ToolError
 
 
+def _pem_ders(name):
+    import base64, re
+    txt = open(f'{core.VERIF}/tls-data/{name}').read()
+    return [base64.b64decode(''.join(b.split())) for b in re.findall(r'-----BEGIN CERTIFICATE-----(.*?)-----END CERTIFICATE-----', txt, re.S)]
+
+
+def _digest(der):
+    return sum((i % 251 + 1) * b for i, b in enumerate(der)) % 1000003
+
+
 def check(prop, tier, seed):
     t0 = time.time()
     core.build_harness()
@@ -37,7 +47,19 @@ def check(prop, tier, seed):
             if r['client_auth'] != 'none' and r['roots'] == 'right' and r['name'] == 'match':
                 for f in ('bundle_first', 'bundle_last'):
                     extra.append(dict(r, client_ca_form=f, **{'class': 'pem_bundle_client_ca'}))
+    # a client identity that is a chain (leaf + the sub-CA that issued it; the server trusts only the root above): accepted like a
+    # one-certificate identity, and the handler is shown the whole chain; the leaf alone has no path to the trusted CA
+    for r in rows:
+        if r['identity'] == 'valid' and r['roots'] == 'right' and r['name'] in ('match', 'uri_match') and r['tls_cfg']:
+            for ident in ('chain', 'chain_leaf_only'):
+                extra.append(dict(r, identity=ident, **{'class': 'chained_identity'}))
     rows = rows + extra
+    presented = {'valid': [_digest(c) for c in _pem_ders('client_c.pem')], 'chain': [_digest(c) for c in _pem_ders('client_chain.pem')]}
+    if len(presented['valid']) != 1 or len(presented['chain']) != 2:
+        raise ToolError('tls-data: unexpected number of certificates in the client identities')
+    for r in rows:
+        if r['identity'] in presented:
+            r['presented'] = presented[r['identity']]
     for i, r in enumerate(rows):      # every other configuration is built with the builder calls in the opposite order
         if i % 2 == 1:
             r['order'] = 'rev'
